@@ -71,6 +71,25 @@ type c11Out struct {
 
 var c11Fired int
 
+// setCallContext does what a caller does before a resolve: it puts its context
+// for this call on the fields of every operation that the mask selects and
+// takes it off the others (it only touches the operations' own fields).
+func setCallContext(exe *ggql.Executable, ctx string, mask int) {
+	for _, op := range exe.Ops {
+		i := 0
+		for _, sel := range op.Sels {
+			if f, ok := sel.(*ggql.Field); ok {
+				if mask&(1<<uint(i%4)) != 0 {
+					f.Context = ctx
+				} else {
+					f.Context = nil
+				}
+				i++
+			}
+		}
+	}
+}
+
 // c11Kept, when set, is the one variables map the caller of the re-used
 // executable passes with every call (contents replaced before each call).
 var c11Kept map[string]interface{}
@@ -198,6 +217,25 @@ func (c C11) runSubscriptions(t *tape.Tape, opt core.RunOpt) (res core.Result) {
 			res.Violate("C11", "printed_form_changed", fmt.Sprintf("after registering subscriber %d the subscription document prints differently:\n%s\nvs after parsing:\n%s", sid, p, printed0), nil)
 			return
 		}
+		if sid > 1 && t.Bool(1, 3) {
+			// a subscriber that is registered already subscribes once more through
+			// the kept document: the same Subscriber object behind the same parsed
+			// field, a second registry entry all the same
+			rs := 1 + t.Draw(sid-1)
+			_, ra := wa.Root.ResolveExecutable(exe, op, map[string]interface{}{"sid": rs})
+			fr, ferr := wb.Root.ParseExecutableString(src)
+			if ferr != nil {
+				res.Fatal = ferr.Error()
+				return
+			}
+			_, rb := wb.Root.ResolveExecutable(fr, op, map[string]interface{}{"sid": rs})
+			hist = append(hist, fmt.Sprintf("subscriber %d subscribes once more -> err=%v (fresh parse: err=%v)", rs, ra, rb))
+			res.Count("probe_subscriber_subscribes_twice_through_kept_document", 1)
+			if (ra == nil) != (rb == nil) {
+				res.Violate("C11", "subscription_re_resolve_differs", fmt.Sprintf("subscriber %d subscribing once more: error %v, on a freshly parsed copy: %v\ndocument:\n%s", rs, ra, rb, src), nil)
+				return
+			}
+		}
 		// publish after every registration
 		ev := 100 + sid
 		envA.log, envB.log = envA.log[:0], envB.log[:0]
@@ -234,7 +272,7 @@ func (c C11) Run(t *tape.Tape, opt core.RunOpt) (res core.Result) {
 	req := workload.GenRequest(t, workload.ReqOpt{Strat: strat, MultiOp: true, VarInLiteral: strat != workload.StratReflect,
 		ShuffleArgs: true, UnknownArgs: strat != workload.StratReflect, NoErrors: t.Bool(1, 2), MaxDepth: 2 + t.Draw(3),
 		NoUnion:       strat == workload.StratInterface || (strat == workload.StratMixed && !(q.Raw["Dog"] && q.Raw["Bird"] && q.Raw["Keeper"] && q.Raw["Cell"])),
-		Introspection: true, VarDirectivesInMeta: true, Pick: true, Span: true, Blob: true, Call: true, FragVars: true, Ghost: true, Relay: t.Bool(1, 2), Nick: true, BadDefaults: t.Bool(1, 3)})
+		Introspection: true, VarDirectivesInMeta: true, Pick: true, Span: true, Blob: true, Call: true, FragVars: true, Ghost: true, Relay: t.Bool(1, 2), Nick: true, BadDefaults: t.Bool(1, 3), Sized: strat != workload.StratReflect && strat != workload.StratMixed})
 	res.Evaluations = 1
 	res.Sig = core.Hash64("c11", strat.String(), req.Src)
 	var hist []string
@@ -253,6 +291,14 @@ func (c C11) Run(t *tape.Tape, opt core.RunOpt) (res core.Result) {
 	var sig []string
 	executed := 0
 	keepVars := t.Bool(1, 3)
+	growAt := -1
+	if strings.Contains(req.Src, "sized(") && t.Bool(2, 3) {
+		growAt = 1 + t.Draw(ncalls-1)
+	}
+	useCtx := t.Bool(1, 3)
+	if useCtx {
+		res.Count("probe_caller_sets_a_context_on_operation_fields", 1)
+	}
 	kept := map[string]interface{}{}
 	if keepVars {
 		res.Count("probe_caller_keeps_one_variables_map", 1)
@@ -278,10 +324,28 @@ func (c C11) Run(t *tape.Tape, opt core.RunOpt) (res core.Result) {
 			plan = &workload.FaultPlan{FailAt: map[int]string{k: kind}}
 			fdesc = fmt.Sprintf(" fault %s at invocation %d", kind, k)
 		}
+		if i == growAt {
+			// the schema grows between two calls: the enum gains a value that the
+			// parsed document already uses
+			if err := z.Root.ParseString("extend enum Size {\n  HUGE\n}\n"); err != nil {
+				res.Fatal = "extending the enum failed: " + err.Error()
+				return
+			}
+			hist = append(hist, "schema extended: extend enum Size { HUGE }")
+			res.Count("probe_schema_extended_between_calls", 1)
+		}
 		c11Fired = 0
 		if keepVars && t.Bool(3, 4) {
 			c11Kept = kept
 		}
+		// the caller's per-call context on some of the operation's own fields
+		// (resolvers find it on the *Field they are handed)
+		ctxMask := 0
+		if useCtx {
+			ctxMask = t.Draw(16)
+		}
+		ctxVal := fmt.Sprintf("call%d", i+1)
+		setCallContext(exe, ctxVal, ctxMask)
 		got := resolveExe(z, exe, op, vars, plan, strat == workload.StratReflect)
 		c11Kept = nil
 		res.Count("fault_resolver_failure_fired", c11Fired)
@@ -290,6 +354,7 @@ func (c C11) Run(t *tape.Tape, opt core.RunOpt) (res core.Result) {
 			res.Fatal = "fresh parse of an accepted document failed: " + ferr.Error()
 			return
 		}
+		setCallContext(fresh, ctxVal, ctxMask)
 		want := resolveExe(z, fresh, op, vars, plan, strat == workload.StratReflect)
 		res.Evaluations += 2
 		if got.calls != "" {
